@@ -2708,6 +2708,8 @@ static void struct_members(Token **rest, Token *tok, Type *ty) {
     // Anonymous struct member
     if ((basety->kind == TY_STRUCT || basety->kind == TY_UNION) &&
         consume(&tok, tok, ";")) {
+      if (basety->size < 0)
+        error_tok(tok, "field has incomplete type");
       Member *mem = calloc(1, sizeof(Member));
       mem->ty = basety;
       mem->idx = idx++;
@@ -2728,7 +2730,10 @@ static void struct_members(Token **rest, Token *tok, Type *ty) {
 
       // A member cannot have an incomplete struct or union type, in
       // particular not the type being defined.
-      if ((mem->ty->kind == TY_STRUCT || mem->ty->kind == TY_UNION) && mem->ty->size < 0)
+      Type *elem = mem->ty;
+      while (elem->kind == TY_ARRAY)
+        elem = elem->base;
+      if ((elem->kind == TY_STRUCT || elem->kind == TY_UNION) && elem->size < 0)
         error_tok(tok, "field has incomplete type");
       mem->idx = idx++;
       mem->align = attr.align ? attr.align : mem->ty->align;
